@@ -73,9 +73,7 @@ fn main() {
                 "C01" => c01::run(&ctx),
                 "C02" => {
                     // X1 on T1 with half of the budget, then the explicit-state sender model on T2
-                    std::env::set_var("VERIF_BUDGET_SCALE", "0.5");
-                    let mut o = t1props::run_c02(&ctx);
-                    std::env::remove_var("VERIF_BUDGET_SCALE");
+                    let mut o = common::with_budget_scale(0.5, || t1props::run_c02(&ctx));
                     o.absorb(c16::run(&ctx, "C02"));
                     o
                 }
